@@ -1,5 +1,37 @@
-(* C07 — placeholder until the engine theorems are added below. *)
-From WF Require Import model.Base model.EngineBase model.Engine.
-Theorem C07_emit_dead_silent : forall t s, o_dead s = true -> emit t s = (Ok tt, s).
-Proof. intros t s H. unfold emit. now rewrite H. Qed.
-Print Assumptions C07_emit_dead_silent.
+(* C07 — events are acknowledged only after successful handling. Property theorems only.
+   Every consumer kind (steps, timeout inserter, hooks, delete, paused-retry) is the same [consume]: receive, wait for the
+   lag, filter, handler, acknowledge ([after_lag] is what follows the lag wait; [guarded] the process supervision).
+   All statements hold for EVERY state: every world, fault plan, lease and crash flag. *)
+From WF Require Import model.Base model.EngineBase model.Engine proofs.EngineTokens proofs.HandlerFacts.
+
+(* the handler failed (any adapter call or the user function): nothing after it runs — in particular no acknowledgement;
+   the operation ends in the handler's final state with the handler's error *)
+Theorem C07_fail_no_ack : forall c inst u idx e s x s1,
+  unit_filter u e = false -> unit_handler c inst u e s = (Err x, s1) -> after_lag c inst u idx e s = (Err x, s1).
+Proof. exact after_lag_handler_failed. Qed.
+Print Assumptions C07_fail_no_ack.
+
+(* the acknowledgement follows a handler that returned nil ... *)
+Theorem C07_ack_after_ok : forall c inst u idx e s s1,
+  unit_filter u e = false -> unit_handler c inst u e s = (Ok tt, s1) -> after_lag c inst u idx e s = (p_ack u idx e ;;; ret PRun) s1.
+Proof. exact after_lag_handler_ok. Qed.
+Print Assumptions C07_ack_after_ok.
+
+(* ... or an event a filter excluded (acknowledged unhandled) *)
+Theorem C07_filtered_acked_unhandled : forall c inst u idx e s,
+  unit_filter u e = true -> after_lag c inst u idx e s = (p_ack u idx e ;;; ret PRun) s.
+Proof. exact after_lag_filtered. Qed.
+Print Assumptions C07_filtered_acked_unhandled.
+
+(* an error takes the process to the error exit: the receiver is closed, the role released after the back-off (at once when
+   the cause was cancellation) *)
+Theorem C07_error_exit : forall c inst u close (m : M pstate) s x s1,
+  m s = (Err x, s1) -> guarded c inst u close m s = exit_err c inst u close x s1.
+Proof. exact guarded_on_error. Qed.
+Print Assumptions C07_error_exit.
+
+(* only the acknowledgement moves the committed position of a consumer, and it moves it just past the acknowledged event *)
+Theorem C07_ack_moves_cursor : forall u idx e s,
+  w_cur (o_w (snd (p_ack u idx e s))) = w_cur (o_w s) \/ get_cursor (o_w (snd (p_ack u idx e s))) u = S idx.
+Proof. exact ack_moves_cursor. Qed.
+Print Assumptions C07_ack_moves_cursor.
